@@ -44,6 +44,17 @@ def main():
             print("VIOLATION property=%s replay=%s" % (pid, path))
             sys.exit(1)
         sys.exit(0)
+    if kind == "lifted":
+        import os, subprocess
+        sys.path.insert(0, os.path.join(os.path.dirname(os.path.dirname(os.path.abspath(__file__))), "lifted"))
+        import run as lrun
+        binp = lrun.build()
+        r = subprocess.run([binp, "replay", path], stdout=subprocess.PIPE, text=True)
+        print(r.stdout.strip())
+        if r.returncode == 1:
+            print("VIOLATION property=%s replay=%s" % (pid, path))
+            sys.exit(1)
+        sys.exit(0 if r.returncode == 0 else 2)
     print("unknown replay kind %s" % kind)
     sys.exit(2)
 
